@@ -347,6 +347,7 @@ def check_async_twins(ctx, F):
             raise AnalysisError(f'FIELDS[{a_}] != FIELDS[{b_}]: the twin premise of R3.7 no longer holds')
     SETS = {}      # names of module-level class sets that contain both twins: ASTS_LEAF_WITH, ...
     n = 0
+    n_sets = 0
     for fi in ctx.repo.all_funcs():
         if isinstance(fi.node, ast.Lambda) or fi.module in ('match', 'asttypes', 'fst_type_predicates', 'traverse_next', 'traverse_prev', 'astutil'):
             continue
@@ -355,6 +356,15 @@ def check_async_twins(ctx, F):
                 continue
             r = c.comparators[0]
             names = [r.id] if isinstance(r, ast.Name) else [e.id for e in r.elts if isinstance(e, ast.Name)] if isinstance(r, (ast.Tuple, ast.Set, ast.List)) else []
+            if isinstance(r, ast.Name) and isinstance(c.ops[0], (ast.In, ast.NotIn)) and r.id not in TW:
+                # membership in a named module-level class set: the set is evaluated and judged like the literal tuple it stands for
+                try:
+                    val = ctx.ev.get(fi.module, r.id)
+                except Exception:
+                    val = None
+                if isinstance(val, (set, frozenset, tuple, list)) and val and all(hasattr(k, 'name') and hasattr(k, 'mro') for k in val):
+                    names = sorted(k.name for k in val)
+                    n_sets += 1
             for nm in names:
                 if nm in TW:
                     n += 1
@@ -364,6 +374,7 @@ def check_async_twins(ctx, F):
     # the instance population are the tests naming the sync class (with its twin); at least the module-level families must exist
     fam = [n_ for n_ in ('ASTS_LEAF_WITH', 'ASTS_LEAF_FOR', 'ASTS_LEAF_FUNCDEF') if any(n_ in m.src for m in ctx.repo.modules.values() if hasattr(m, 'src'))]
     ctx.extra['async_twin_tests'] = n
+    ctx.extra['async_twin_named_sets_evaluated'] = n_sets
 
 
 def check_code_forms(ctx):
